@@ -49,6 +49,31 @@ def histories(ctx):
         h = list(base)
         ctx.rng.shuffle(h)
         hs.append(h[: ctx.rng.randint(2, len(h))] + [ctx.rng.choice(base)])
+    # the same country twice with option sets that differ in exactly ONE option (a result kept from the earlier run under a key that
+    # ignores that option shows here), both orders
+    rng = ctx.rng
+    VARIANTS = [("grasses", "baseline"), ("crop_disruption", "zero"), ("fish", "baseline"), ("waste", "zero"), ("scenario", "no_resilient_foods"),
+                ("stored_food", "zero"), ("shutoff", "immediate"), ("cull", "dont_eat_culled"), ("nutrition", "baseline"), ("seasonality", "no_seasonality"),
+                ("intake_constraints", "disabled_for_humans"), ("ratio_stocks_untouched", "baseline")]
+    anchors = [("ARG", pipeline.options(NMONTHS=48, meat_strategy="baseline_breeding", shutoff="immediate")), base[0], base[3]]
+    for iso, o in anchors[: ctx.budget(2, 3)]:
+        for key, val in rng.sample(VARIANTS, ctx.budget(2, 6)):
+            if o.get(key) == val:
+                continue
+            v = (iso, dict(o, **{key: val}))
+            base.append(v)
+            if (iso, o) not in base:
+                base.append((iso, o))
+            hs.append([v, (iso, o)])
+            hs.append([(iso, o), v])
+    # a run that carries optional overrides (custom herd size, meat per large animal, minimum share) followed by runs that carry none
+    ov = ("ARG", pipeline.options(NMONTHS=48, kg_meat_per_large_animal=350, meat_cattle_head=20000000))
+    plain = [("URY", pipeline.options(NMONTHS=48)), base[0]]
+    base += [ov, plain[0]]
+    hs.append([ov, plain[0], plain[1]])
+    ov2 = ("DJI", pipeline.options(NMONTHS=48, MINIMUM_PERCENT_FED_BEFORE_NONHUMAN_CONSUMPTION_ALLOWED=10, milk_cattle_head=50000))
+    base.append(ov2)
+    hs.append([ov2, base[0], plain[0]])
     return base, hs
 
 
